@@ -1262,3 +1262,14 @@ def bounded(opts):
                 "iter_patch_id_pairs exhaustively for all symmetric reflexive link graphs up to 5 (thorough: 6) patches, both modes",
                 evaluations=len(res), distinct_nontrivial=len(res), violations=[dict(id=f"bounded:{n}", detail=d) for n, d in fails][:12],
                 samples=[n for n, _, _ in res[:3]], wall_s=round(time.time() - t0, 2), note="real library; labelled bounded, not counted as proved")
+
+
+# pair counts are taken from the cached trees: they are exact only if the trees that are reused were built for the requested binning
+# (edges and closed side) - the C07 unit on BinnedTrees.build, run here as well
+def _register_shared_round9():
+    from . import C07 as _C07
+    unit(P, "BinnedTrees.build", fuc=["yaw.catalog.trees:BinnedTrees.build", "yaw.catalog.trees:BinnedTrees.binning_equal", "yaw.binning:Binning.__eq__"],
+         cases=_C07.CASES)(_C07.u_build)
+
+
+# _register_shared_round9() is called by the driver after this module is fully imported (no import cycles)
